@@ -29,6 +29,27 @@ Record config := mkConfig {
   c_include_empty : bool;       (* include_prompts_in_repositories is empty *)
   c_include_match : bool }.     (* repo matches the include list *)
 
+(* Config::should_exclude_prompts over the remote URLs of the repository (None = they could not be read) and the
+   exclusion patterns; glob matching (glob::Pattern::matches) is an environment function; the two quantifiers
+   come from the source (Gen: excl_over_remotes, excl_over_patterns) *)
+Definition quantb {A : Type} (q : quant) (f : A -> bool) (l : list A) : bool :=
+  match q with QAny => existsb f l | QAll => forallb f l end.
+
+Definition star_pattern : list N := [42].
+
+Definition should_exclude (glob : list N -> list N -> bool) (patterns : list (list N))
+           (remotes : option (list (list N))) : bool :=
+  match patterns with
+  | [] => false
+  | _ =>
+      if existsb (str_eqb star_pattern) patterns then true
+      else match remotes with
+           | None => false
+           | Some [] => false
+           | Some rs => quantb excl_over_remotes (fun u => quantb excl_over_patterns (fun p => glob p u) patterns) rs
+           end
+  end.
+
 Definition effective_mode (c : config) : smode :=
   if c_excluded c then eff_excluded
   else if c_include_empty c then match c_global c with Some m => m | None => eff_unparsable_global end
